@@ -1,5 +1,6 @@
 INIT OInit
 NEXT ONext
 INVARIANT Harness_Instantiated
+INVARIANT Conf_CodeObjective
 INVARIANT C17_CostIsUserFunction
 INVARIANT C17_ReportedCostIsOptimum
